@@ -129,7 +129,8 @@ def run(tier, seed, only_case=None):
               "empty / more than one resolution.")
     r.assumptions = ["bases are fixed-width coolers whose bin sizes divide the targets as stated by the case"]
     if only_case is None:
-        r.model_check("MC_Coarsen", "MC_Coarsen_quick.cfg" if tier == "quick" else "MC_Coarsen_thorough.cfg", timeout=3000)
+        # (the store-heavy thorough instance belongs to C08; here the resolution sets grow: MaxRes 12)
+        r.model_check("MC_Coarsen", "MC_Coarsen_quick.cfg" if tier == "quick" else "MC_Coarsen_zoom.cfg", timeout=3000)
         cs = cases(tier, seed)
     else:
         cs = [only_case]
